@@ -126,6 +126,8 @@ class BindExpected(Contract):
         bound = lambda jj: z3.Select(has, g.name(jj))  # noqa: E731
         value = lambda jj: z3.Select(val, g.name(jj))  # noqa: E731
         return {
+            "C07|a-fresh-binding-object-of-this-signature": z3.And(r.e >= s0["ghost.alloc"], r.e < s["ghost.alloc"],
+                                                                   s.sel("BoundArguments.signature", r.e) == a.self.e),
             "C07|positional-slot:keyword-if-given-else-the-positional-argument": z3.ForAll([j], z3.Implies(
                 z3.And(inr, g.filled_positionally(j)),
                 z3.And(bound(j), value(j) == z3.If(z3.And(g.in_kw(j), g.kind(j) != PO), g.kwval(j), g.arg(j))))),
